@@ -24,6 +24,14 @@ def main(run):
         n = rng.choice([1, 2, 5, 20, 60]) if not thorough else rng.choice([1, 2, 3, 10, 50, 200])
         lo = rng.choice([10.0, 100.0, 500.0]); hi = lo * rng.choice([5.0, 20.0, 200.0])
         xi = np.array([lo]) if n == 1 else (np.linspace(lo, hi, n) if rng.random() < 0.5 else np.logspace(math.log10(lo), math.log10(hi), n))
+        # spin-echo lengths are not always stored in increasing order (concatenated scans): every data point still
+        # gets the transform at ITS length.  (The q range is taken from xi[0], xi[1] and xi[-1], so those stay put.)
+        if t % 2 == 1 and n < 5:
+            n = rng.choice([7, 20]); xi = np.linspace(lo, hi, n)
+        if t % 2 == 1:
+            mid = list(range(2, n - 1)); rng.shuffle(mid)
+            xi = xi[[0, 1] + mid + [n - 1]]
+            stats["unsorted_sets"] = stats.get("unsorted_sets", 0) + 1
         lam = rng.choice([2.0, 5.0, 8.0])
         theta_max = rng.choice([math.pi / 2, 0.05, 0.01, 0.002])
         zacc = 2 * math.pi / lam * math.sin(theta_max)
@@ -62,10 +70,12 @@ def main(run):
             Iq[k] = rng.uniform(0.0, 2.0)
         got = tr.apply(Iq)
         nx = min(len(xi), 6)
-        J = j0(np.outer(q[S], xi[:nx]))
+        cols = sorted(rng.sample(range(len(xi)), nx))          # data points anywhere in the set
+        J = j0(np.outer(q[S], xi[cols]))
         scale = np.array([np.sum((np.abs(J[:, j]) + 1) * Iq[S] * q[S] * (q[S] - q[np.array(S) - 1])) / (2 * math.pi) for j in range(nx)])
         pts = coq_list(["(%s, %s, %s, %s)" % (fhex(q[k] - q[k - 1]), fhex(q[k]), fhex(Iq[k]), flist(J[i])) for i, k in enumerate(S)], "(float * float * float * list float)")
-        cases.append("(MkCase %s %s %s %s %s)" % (pts, fhex(lam), fhex(zacc), flist(scale), flist(got[:nx])))
+        cases.append("(MkCase %s %s %s %s %s)" % (pts, fhex(lam), fhex(zacc), flist(scale), flist(got[cols])))
+        desc["xi_order"] = "unsorted" if t % 2 == 1 else "increasing"
         metas.append(desc)
         distinct.add((n, lo, hi, lam, theta_max))
         run.sample(desc)
